@@ -568,8 +568,11 @@ class KeyPath(formatting.Formattable):
         # Both are ints. Compare numerically so that KeyPath(2) < KeyPath(10).
         return comparison(self.key, other.key)
       if is_int_or_str(self.key) and is_int_or_str(other.key):
-        # One is a str; the other is an int or str. Compare lexicographically.
-        return comparison(str(self.key), str(other.key))
+        # One is a str; the other is an int or str. Compare lexicographically
+        # (an int sorts before the str with the same text, e.g. 0 < '0').
+        return comparison(
+            (str(self.key), is_str(self.key)),
+            (str(other.key), is_str(other.key)))
       # One or both is a custom key. Delegate comparison to its magic methods.
       return comparison(self.key, other.key)
 
